@@ -1,7 +1,7 @@
 """C05 - see DESIGN.md section 5/C05.  Deductive clause groups (pyvc) + bounded suite (rtc)."""
 from checks import mcheck
 from contracts import lattice_vc as V
-from rtc import suites
+from rtc import suites, geo_suites
 
 RULE = 'cases are a deterministic function of VERIF_SEED and the case number: small planar maps (2-5 nodes on the half-integer grid {0..4}^2; chain, one-way chain, cycle, star, grid, line, random edge sets, one-way feeders merging into one node; duplicated node locations and self-listed neighbours included; string, 1-based and 0-based integer labels), per suite also: a one-way block driven around more than once, feeders plus a linked parallel road, 3x3 / 4x4 street grids with sparse traces (non-emitting chains of depth >= 2); traces of 1-5 observations on the quarter grid (walks along the map with noise, on-road, sparse, outliers, repeats, random); one case in five first matches ANOTHER trace on the same matcher object; configurations over both matcher families, edge-only / node-and-edge states, noise in {0.09,.5,.55,1,2}, max_dist, max_dist_init, min_prob_norm, non-emitting on/off, width in {None,1,2,3}, avoid_goingback; histories of match / extend / widen (/ continue_with_distance where the suite says so)'
 
@@ -16,7 +16,10 @@ SPEC = {
         ("_create_start_nodes(max_dist_init goes to the spatial query; distance, projection and relative position go unchanged into the start state)", 'start_nodes', r'^start:(spatial|one-first)'),
         ("BaseMatcher.__init__(the thresholds are the caller's: max_dist or unbounded, max_dist_init or max_dist, log(min_prob_norm) or unbounded)", 'matcher_init', r'^init:(max_dist|min_logprob)')],
     'bounded': [
-        ('cutoffs-and-nearest-points', suites.case_C05, 1500, 200000, RULE + '; ' + 'non-trivial = some candidate was cut off or the path has >= 2 states', '')],
+        ('cutoffs-and-nearest-points', suites.case_C05, 1500, 200000, RULE + '; ' + 'non-trivial = some candidate was cut off or the path has >= 2 states', ''),
+        ('cutoffs-and-nearest-points(lat-lon)', geo_suites.case_C05_latlon, 1500, 100000,
+         'universe maps and traces placed at 10 m per grid unit at 7 anchors (|lat| < 60), half of them with fixes a few decimetres from a node; lat-lon metric, cut-offs in '
+         'metres; every emitting state of the best path against an independent spherical reference (12 cm + 1e-6); non-trivial = path with >= 2 states', '')],
 }
 
 
